@@ -164,6 +164,9 @@ def G3_graphs(rep, flow: Flow):
         else:
             rep.ok("G3", 1, nontrivial=(n, c, "adj"), sample=f"({n},{c}): [{spec.fmt_edges(es)}]")
         ge = ce.apply(ce.getattr(g, "get_edges", None, None), [], {}, None, None)
+        if not (isinstance(ge, (list, tuple)) and all(isinstance(e, (list, tuple)) and len(e) == 2 for e in ge)):
+            rep.finding("G3", f"graph:{n}-{c}:get_edges", f"get_connectivity_graph({n}, {c!r}).get_edges() returns {ge!r}, not a list of vertex pairs")
+            continue
         ges = frozenset(frozenset(e) for e in ge)
         if ges != want or len(ge) != len(want):
             rep.finding("G3", f"graph:{n}-{c}:get_edges", f"get_connectivity_graph({n}, {c!r}).get_edges() reports {sorted(tuple(e) for e in ge)}; documented: [{spec.fmt_edges(want)}]")
@@ -525,6 +528,38 @@ def W8_info(rep, flow: Flow, fq="mub_circuits.get_mub_info"):
             rep.ok("W8", 1, nontrivial=(fq, "avg"), sample="'average two-qubit count' <- header field 0 / num circuits")
         else:
             rep.finding("W8", f"{fq}:average two-qubit count", f"{where}: 'average two-qubit count' is {fmt(k) if k else 'absent'}; documented: header field 0 of line 0 divided by the number of circuits")
+
+
+def W10_requested_file(rep, flow: Flow, fqs=("mub_circuits.get_mub_circuits", "mub_circuits.get_mubs", "mub_circuits.get_mub_info")):
+    rep.rule("W10", "every MUB accessor reads the table file named by its own arguments: mub{num_qubits}-{connectivity}.txt, the qubit count in the first and the connectivity in the second place", floor=3)
+    from .rules_flow import file_pattern
+    for fq in fqs:
+        f = flow.prog.func(fq)
+        seen = False
+        for pi, r in enumerate(flow.paths(fq)):
+            for ev in r.events:
+                if ev[0] != "read-file":
+                    continue
+                seen = True
+                pat = file_pattern(("file", vkey(ev[1])))
+                if pat is None:
+                    raise AnalysisError(f"{fq}: table read with unrecognised file-name pattern {fmt(vkey(ev[1]))[:120]} at {ev[2]}")
+                kind, nk, ck = pat
+
+                def strip(k):
+                    while isinstance(k, tuple) and k and k[0] in ("str", "int", "fmt") and len(k) == 2:
+                        k = k[1]
+                    return k
+                nk, ck = strip(nk), strip(ck)
+                want_n, want_c = ("param", "num_qubits"), ("param", "connectivity")
+                if kind == "mub" and nk == want_n and ck == want_c:
+                    rep.ok("W10", 1, nontrivial=(fq, ev[2]), sample=f"{f.qualname}: reads mub{{num_qubits}}-{{connectivity}}.txt")
+                elif kind != "mub" or {nk, ck} == {want_n, want_c} or (nk[0] == "const" or ck[0] == "const"):
+                    rep.finding("W10", f"{fq}:file", f"{f.module.rel} {f.qualname} (path #{pi}): the table read at {ev[2]} is {kind}{{{fmt(nk)}}}-{{{fmt(ck)}}}.txt; the request's own table is mub{{num_qubits}}-{{connectivity}}.txt")
+                else:
+                    raise AnalysisError(f"{fq}: the file name read at {ev[2]} is built from {fmt(nk)[:60]} / {fmt(ck)[:60]}: whether that names the requested table cannot be decided")
+        if not seen:
+            raise AnalysisError(f"{fq}: no table read on any path (anchor vanished)")
 
 
 def hdr_key(k):
